@@ -1501,9 +1501,13 @@ class Solid:
     #: The RGB colour this brush appears as in 2D views. Randomly assigned when the brush is
     #: created, but then set to the colour of the tied entity or visgroup.
     editor_color: Vec = attrs.field(factory=lambda: Vec(255, 255, 255))
+    # Set once our ID has actually been allocated. Until then self.id is only the ID that was
+    # requested, which may belong to another brush - so __del__ must not release it.
+    _id_owned: bool = attrs.field(default=False, init=False, repr=False)
 
     def __attrs_post_init__(self) -> None:
         self.id = self.map.solid_id.get_id(self.id)
+        self._id_owned = True
 
     def copy(
         self,
@@ -1632,7 +1636,8 @@ class Solid:
 
     def __del__(self) -> None:
         """Forget this solid's ID when the object is destroyed."""
-        self.map.solid_id.discard(self.id)
+        if getattr(self, '_id_owned', False):
+            self.map.solid_id.discard(self.id)
 
     def remove(self) -> None:
         """Remove this brush from the map."""
